@@ -43,10 +43,17 @@ OWN = {
 
 
 def case_spec(prop, seed, i):
+    import os
     rnd = gen.rng_for('decode', prop, seed, i)
     r = rnd.random()
     acc = 0
-    for name, w, kw in PROFILES:
+    profiles = PROFILES
+    only = os.environ.get('VERIF_ONLY')
+    if only:   # triage aid: restrict to some generator classes
+        profiles = [p for p in PROFILES if p[0] in only.split(',')]
+        tot = sum(p[1] for p in profiles)
+        profiles = [(p[0], p[1] / tot, p[2]) for p in profiles]
+    for name, w, kw in profiles:
         acc += w
         if r < acc:
             break
@@ -87,6 +94,7 @@ class Emit:
     def __init__(self, prop, col, sp, flags, enc):
         self.prop, self.col, self.sp, self.flags, self.enc = prop, col, sp, flags, enc
         self.seen = set()
+        self.ctx = {}
 
     def __call__(self, symptom, detail, where=None, once=True):
         if self.enc == 'FAST' and self.prop == 'C14' and not symptom.startswith('fast_'):
@@ -98,6 +106,7 @@ class Emit:
             return
         self.seen.add(k)
         w = {'enc': self.enc}
+        w.update(self.ctx)
         w.update(where or {})
         self.col.violation(symptom, self.sp, detail, self.flags, where=w)
 
@@ -163,10 +172,15 @@ def run_encoder(prop, case, enc, emit, col, rk, rk_dv, rnd, cap):
                  where={'exc': info['type'], 'site': info['site']})
         return None
     col.count('processors_' + enc)
+    try:
+        emit.ctx = {'conn_enc': ','.join(sorted({type(d[0].encoder).__name__ for d in gp._conn_choice_data_map.values()}))}
+    except Exception:  # noqa
+        emit.ctx = {}
     dvobs = O.des_vars(gp, b)
     vectors, exhaustive = D.declared_space(gp, cap, rnd)
     sel_key_of = {v: k for k, v in b.sel.items()}
     conn_id_of = {v: k for k, v in b.conn.items()}
+    kinds = kinds_of(dvs, sel_key_of, conn_id_of)
     keys_seen = {}
     corrected = {}
     act_by_vec = {}
@@ -220,8 +234,11 @@ def run_encoder(prop, case, enc, emit, col, rk, rk_dv, rnd, cap):
             x2, a2 = D.to_list(x2), [bool(v) for v in a2]
             obs2 = O.instance(g2, b)
             if x2 != x1 or a2 != a1 or obs_key(obs2, model) != key or obs2['dv'] != obs['dv']:
+                only_act = x2 == x1 and obs_key(obs2, model) == key and obs2['dv'] == obs['dv']
                 emit('not_idempotent', {'x': x, 'x1': x1, 'a1': a1, 'x2': x2, 'a2': a2,
-                                        'same_arch': obs_key(obs2, model) == key})
+                                        'same_arch': obs_key(obs2, model) == key,
+                                        'only_activeness_of': diff_kinds(kinds, a1, a2) if only_act else None},
+                     where={'only_activeness_of': ','.join(diff_kinds(kinds, a1, a2)) if only_act else ''})
         except Exception as e:  # noqa
             emit('not_idempotent', {'x': x, 'x1': x1, 'exc': D.exc_info(e)}, where={'exc': type(e).__name__})
         hint = {}
@@ -304,8 +321,19 @@ def run_encoder(prop, case, enc, emit, col, rk, rk_dv, rnd, cap):
         except Exception as e:  # noqa
             emit('fast_valid_vector_changed', {'exc': D.exc_info(e)}, where={'exc': type(e).__name__})
     if enc == 'COMPLETE' and prop in ('C04', 'C07'):
-        check_enumeration(prop, gp, b, case, emit, col, rk_dv, corrected, dvs)
+        check_enumeration(prop, gp, b, case, emit, col, rk_dv, corrected, dvs, kinds)
     return res
+
+
+def kinds_of(dvs, sel_key_of, conn_id_of):
+    out = []
+    for dv in dvs:
+        out.append('sel' if dv.node in sel_key_of else 'conn' if dv.node in conn_id_of else 'dv')
+    return out
+
+
+def diff_kinds(kinds, a, b_):
+    return sorted({k for k, p, q in zip(kinds, a, b_) if p != q})
 
 
 def _close(a, b_):
@@ -363,7 +391,7 @@ def check_conn_vars(gp, b, g, obs, x1, a1, emit, col):
                                                          'instance_edges': sorted(have.items())})
 
 
-def check_enumeration(prop, gp, b, case, emit, col, rk_dv, corrected, dvs):
+def check_enumeration(prop, gp, b, case, emit, col, rk_dv, corrected, dvs, kinds):
     """C04 (+ the enumeration path of C07)"""
     model = case.model
     try:
@@ -398,14 +426,15 @@ def check_enumeration(prop, gp, b, case, emit, col, rk_dv, corrected, dvs):
         if [x1[i] for i in disc] != [r[i] for i in disc]:
             emit('row_not_fixed_point', {'row': r, 'decoded': x1})
         if list(a) != a1:
-            emit('row_activeness_differs', {'row': r, 'listed': list(a), 'decoded': a1})
+            dk = ','.join(diff_kinds(kinds, list(a), a1))
+            emit('row_activeness_differs', {'row': r, 'listed': list(a), 'decoded': a1}, where={'kinds': dk})
             emit('activeness_path_disagree', {'row': r, 'enumeration': list(a), 'decode': a1},
-                 where={'paths': 'enumeration_vs_decode'})
+                 where={'paths': 'enumeration_vs_decode', 'kinds': dk})
         # raw vectors that were corrected to this row must have reported the same activeness
         t = tuple(x1)
         if t in corrected and corrected[t][0] != a1:
             emit('activeness_path_disagree', {'row': r, 'decode_raw': corrected[t][0], 'decode_row': a1},
-                 where={'paths': 'raw_vs_corrected'})
+                 where={'paths': 'raw_vs_corrected', 'kinds': ','.join(diff_kinds(kinds, corrected[t][0], a1))})
         for i, dv in enumerate(dvs):
             if not dv.conditionally_active and not a[i]:
                 emit('unconditional_var_inactive', {'row': r, 'var': dv.name}, where={'kind': 'enumeration'})
